@@ -69,7 +69,7 @@ OosWhy(in, r, sk) ==
 
 VOos == /\ Take("oos")
         /\ LET info == SkInfo(R.sk) IN
-           /\ Assert(<<R.b, R.slot, R.form>> \in Triples(info),
+           /\ Assert(IsTriple(info, R.b, R.slot, R.form),
                      <<"the record is not a (binder, slot, form) triple of the universe", R.sk, R.b, R.slot, R.form>>)
            /\ LET in == PairInScope(info, R.b, R.slot)
                   why == OosWhy(in, R, R.sk)
